@@ -296,8 +296,8 @@ def run_check(pid, tier, seed, t0):
         "exhaustive": False,
     }
     cov.update(extra_cov)
-    if rc == 0 and nviol > 0:
-        rc = 1
+    if nviol > 0:
+        rc = 1          # a violation that was found is reported as such even if another part of the run had a tool error
     write_evidence(pid, tier, seed, "model_checking", cov, time.time() - t0, nviol)
     return rc
 
